@@ -46,7 +46,15 @@ type Options struct {
 	LabelPoints map[string][]string // instance name -> points "x_y_z" for label queries
 	Bodies      map[string][]uint64 // instance name -> labels to query per version (labelmap)
 	Volume      map[string][2]string // instance name -> size, offset for raw reads ("64_64_64","0_0_0")
-	keepFull    bool
+	// reads added for the growth of C03 (all off by default, so that the snapshots of the other checks are unchanged)
+	AnnLabels map[string][]uint64 // annotation instance name -> labels for label/<l> (with and without relationships)
+	AnnTags   map[string][]string // annotation instance name -> tags for tag/<t>
+	SzLabels  map[string][]uint64 // labelsz instance name -> labels for count/<l>/<index type>
+	AnnBox    [2]string           // size, offset of the annotation elements/<size>/<offset> read ("" = 2000^3 around the origin)
+	RawLZ4    bool                // labelmap raw reads with ?compression=lz4 (same voxels, 1/100 of the bytes through the pipe)
+	LogReads  bool                // log-derived reads: labelmap mutations, mutations-range, history; keyvalue mutations
+	Root      map[string]string   // version uuid -> root uuid of its repo (filled by Take; used by the range reads)
+	keepFull  bool
 }
 
 // Read is one HTTP read.
@@ -194,8 +202,12 @@ func Take(n *node.Node, opt Options) (*Snap, error) {
 		return nil, fmt.Errorf("repos/info parse: %v", err)
 	}
 	var roots []string
-	for root := range repos {
+	opt.Root = map[string]string{}
+	for root, ri := range repos {
 		roots = append(roots, root)
+		for u := range ri.DAG.Nodes {
+			opt.Root[u] = root
+		}
 	}
 	sort.Strings(roots)
 	for _, root := range roots {
@@ -395,6 +407,9 @@ func typeReads(n *node.Node, typename, name, uuid string, opt Options) ([]Read, 
 	switch typename {
 	case "keyvalue":
 		reads = append(reads, get("keys", NormJSON), get("tags", NormJSON))
+		if opt.LogReads {
+			reads = append(reads, get("mutations", NormMutations))
+		}
 		r, err := n.HTTP("GET", base+"/keys", nil)
 		if err != nil {
 			return nil, err
@@ -412,12 +427,27 @@ func typeReads(n *node.Node, typename, name, uuid string, opt Options) ([]Read, 
 	case "roi":
 		reads = append(reads, get("roi", NormJSON))
 	case "annotation":
-		reads = append(reads, get("all-elements", NormJSON), get("elements/2000_2000_2000/-1000_-1000_-1000", NormJSONSortedArray), get("tags", NormJSON))
+		box := "2000_2000_2000/-1000_-1000_-1000"
+		if opt.AnnBox[0] != "" {
+			box = opt.AnnBox[0] + "/" + opt.AnnBox[1]
+		}
+		reads = append(reads, get("all-elements", NormJSON), get("elements/"+box, NormJSONSortedArray), get("tags", NormJSON))
+		for _, l := range opt.AnnLabels[name] {
+			reads = append(reads, get(fmt.Sprintf("label/%d", l), NormJSONSortedArray), get(fmt.Sprintf("label/%d?relationships=true", l), NormJSONSortedArray))
+		}
+		for _, t := range opt.AnnTags[name] {
+			reads = append(reads, get("tag/"+t, NormJSONSortedArray))
+		}
 	case "neuronjson":
 		reads = append(reads, get("keys", NormJSON), get("all", NormJSONSortedArray), get("fields", NormJSONSortedArray), get("tags", NormJSON))
 	case "labelsz":
 		for _, it := range []string{"PostSyn", "PreSyn", "Gap", "Note", "AllSyn"} {
 			reads = append(reads, get("top/10/"+it, NormJSON))
+		}
+		for _, l := range opt.SzLabels[name] {
+			for _, it := range []string{"PostSyn", "PreSyn", "AllSyn"} {
+				reads = append(reads, get(fmt.Sprintf("count/%d/%s", l, it), NormJSON))
+			}
 		}
 	case "labelmap":
 		reads = append(reads, get("maxlabel", NormJSON), get("nextlabel", NormJSON), get("tags", NormJSON), get("supervoxel-splits", NormJSON), get("mappings", sortLines), get("listlabels", nil))
@@ -431,6 +461,19 @@ func typeReads(n *node.Node, typename, name, uuid string, opt Options) ([]Read, 
 		}
 		for _, p := range opt.LabelPoints[name] {
 			reads = append(reads, get("label/"+p, NormJSON), get("label/"+p+"?supervoxels=true", NormJSON))
+		}
+		if opt.LogReads {
+			// answers derived from the mutation logs (the JSON mutation log of the server and the
+			// instance's own per-version log), wall-clock fields removed
+			// (map-stats is left out: it reports which versions' mappings happen to be cached in memory,
+			// a server statistic the property exempts)
+			reads = append(reads, get("mutations", NormMutations))
+			if root := opt.Root[uuid]; root != "" {
+				reads = append(reads, get("mutations-range/"+root+"/"+uuid, NormMutations))
+				for _, b := range opt.Bodies[name] {
+					reads = append(reads, get(fmt.Sprintf("history/%d/%s/%s", b, root, uuid), NormMutations))
+				}
+			}
 		}
 	default:
 		if strings.HasSuffix(typename, "blk") {
@@ -513,4 +556,39 @@ func Transform(s *Snap, f func(key, body string) string) *Snap {
 		out.Entries[i] = e
 	}
 	return out
+}
+
+// NormMutations normalises a JSON list of mutation records: wall-clock fields are removed
+// (record order is kept: it is the order of the log).
+func NormMutations(b []byte) []byte {
+	var v interface{}
+	if err := json.Unmarshal(b, &v); err != nil {
+		return b
+	}
+	out, err := json.Marshal(scrubTimes(scrub(v)))
+	if err != nil {
+		return b
+	}
+	return out
+}
+
+func scrubTimes(v interface{}) interface{} {
+	switch t := v.(type) {
+	case map[string]interface{}:
+		for k := range t {
+			lk := strings.ToLower(k)
+			if lk == "timestamp" || lk == "time" {
+				delete(t, k)
+				continue
+			}
+			t[k] = scrubTimes(t[k])
+		}
+		return t
+	case []interface{}:
+		for i := range t {
+			t[i] = scrubTimes(t[i])
+		}
+		return t
+	}
+	return v
 }
